@@ -18,12 +18,14 @@ CONFIGS = {
     "D": dict(Keys={1, 2}, Nodes={1, 2}, Sources={0, 1}, F=2, Times={0, 3}, Counters={0, 1}, MaxOps=5),
     # two sources, far-apart times: purges through both sources become effective
     "P": dict(Keys={1, 2}, Nodes={1, 2}, Sources={0, 1}, F=2, Times={0, 3, 4}, Counters={0}, MaxOps=4),
+    # the same universe as A with re-delivery of operations (duplication), at most 4 deliveries
+    "AD": dict(Keys={1, 2}, Nodes={1, 2}, Sources={0, 1}, F=2, Times={0, 1, 2}, Counters={0}, MaxOps=4, AllowDup=True),
     # thorough: three keys / three nodes
     "E": dict(Keys={1, 2, 3}, Nodes={1, 2}, Sources={0, 1}, F=2, Times={0, 1, 2}, Counters={0}, MaxOps=5),
     "G": dict(Keys={1, 2}, Nodes={1, 2, 3}, Sources={0, 1}, F=2, Times={0, 1, 2, 3}, Counters={0}, MaxOps=4),
     "H": dict(Keys={1, 2}, Nodes={1, 2}, Sources={0, 1}, F=3, Times={0, 1, 2, 3, 4}, Counters={0}, MaxOps=4),
 }
-TIERS = {"quick": ["A", "B", "C", "P"], "thorough": ["A", "B", "C", "P", "D", "E", "G", "H"]}
+TIERS = {"quick": ["A", "AD", "B", "C", "P"], "thorough": ["A", "AD", "B", "C", "P", "D", "E", "G", "H"]}
 
 INVARIANTS = ["C04_LWW", "C08_StillRefused", "WellFormedInv"]
 PROPERTIES = ["C04_Return", "C08_PurgeInvisible"]
@@ -32,6 +34,7 @@ PROPERTIES = ["C04_Return", "C08_PurgeInvisible"]
 def _one(ctx, binary, name):
     consts = dict(CONFIGS[name])
     consts["FixD6"] = True
+    consts.setdefault("AllowDup", False)
     # (M) model checking of the faithful layer against the oracle layer
     mc_cfg = vlib.cfg_text(constants=dict(consts, EmitEdges=False), invariants=INVARIANTS,
                            properties=PROPERTIES, view="MCView")
@@ -60,7 +63,7 @@ def _one(ctx, binary, name):
         raise vlib.ToolError("config %s: replayed %d edges but TLC generated %d states" %
                              (name, rep["evaluations"], gen["generated"]))
     return dict(name=name, mc=mc, mc_ok=mc_ok, gen=gen, rep=rep, constants={k: sorted(v) if isinstance(v, set) else v
-                                                                                for k, v in c.items()})
+                                                                                for k, v in dict(c, AllowDup=c.get("AllowDup", False)).items()})
 
 
 def run_ops(ctx):
